@@ -68,9 +68,12 @@ def move_ref_coord_alogn_alignment(alignment, shift):
         elif cigar_event in [4, 5]:
             # met clipping on the other side
             break
+        elif cigar_event == 6:
+            # padding consumes neither read nor reference bases
+            pass
         else:
             # unexpected event
-            logger.warning("Unexpected event: " + cigar_event)
+            logger.warning("Unexpected event: %d" % cigar_event)
         #logger.debug("%d, %d, %d, %d" % (cigar_event, event_len, read_length_consumed, reference_length_consumed))
 
         current_pos += direction
